@@ -10,6 +10,11 @@
      code 11: a disagreement on a program of the class [RefScope.leaky] (a captured local that is
              not the top stack slot when its loop-body scope ends stays open: known finding)
      code 12: a disagreement on a run in which a Get past the end met a table with a nil key
+     code 13: a disagreement on a program in which a loop variable or closure parameter shadows a
+             visible variable ([RefScope.shadowing], finding R-4)
+     code 14: a disagreement on a run in which the reference semantics stopped with VarNotFound for
+             a never-assigned global (finding R-5: such a global reads nil when a higher slot is
+             assigned)
    Resource errors of the implementation (Timeout, Stackoverflow, CallStackOverflow,
    OutOfMemory) are not predicted: such cases are skipped (the harness counts them). *)
 From Cao Require Export CheckUtil CardAst RefSem RefScope.
@@ -108,7 +113,9 @@ Definition check1 (c : c01case) : list N :=
           | PObs o' =>
               (if okind_eqb k (ob_kind o') && globals_agree g (ob_globals o') && log_eqb l (ob_log o')
                then [] else if leaky m then [11]
-               else if existsb (N.eqb 12) (ob_notes o') then [12] else [2])
+               else if existsb (N.eqb 12) (ob_notes o') then [12]
+               else if shadowing m then [13]
+               else if existsb (N.eqb 14) (ob_notes o') then [14] else [2])
           | PFuel => [3]
           | PUnspec 12 => [10]
           | PUnspec _ => [3]
